@@ -108,6 +108,10 @@ class Node(ABC):
         """Return variables this node adds to the node's block scope."""
         return []
 
+    def unscoped_children(self) -> Iterable[Node]:
+        """Return those of this node's children that don't see its block scope."""
+        return []
+
     def partial_scope(self) -> Partial | None:
         """Return information about a partial template loaded by this node."""
         return None
